@@ -3,6 +3,9 @@
 #include "psc/error.h"
 #include "nodes/loop/control.h"
 #include "nodes/loop/repeatUntil.h"
+#ifdef PSEUDOENGINE2_VERIF
+#include "verif.h"
+#endif
 
 RepeatUntilNode::RepeatUntilNode(const Token &token, Node &condition, PSC::Block &block)
     : UnaryNode(token, condition), block(block)
@@ -10,6 +13,9 @@ RepeatUntilNode::RepeatUntilNode(const Token &token, Node &condition, PSC::Block
 
 std::unique_ptr<NodeResult> RepeatUntilNode::evaluate(PSC::Context &ctx) {
     while (true) {
+#ifdef PSEUDOENGINE2_VERIF
+        PE2Verif::tick(token, ctx);
+#endif
         try {
             block.run(ctx);
         } catch (BreakErrSignal&) {
